@@ -106,25 +106,41 @@ int main(int argc, char** argv) {
   // ---- C19: the local graph of this host
   {
     VVL nodes, edges, mirrors;
-    long long mapsOK = 1;
+    long long mapsOK = 1, foreignSrc = 0, foreignDst = 0;
+    bool big = G->globalSize() > 64;       // large graphs: counts only (the complete dump is for TLC)
     hasOut.assign(G->size(), 0); hasIn.assign(G->size(), 0);
+    std::vector<char> here(G->globalSize(), 0);
     for (uint32_t l = 0; l < G->size(); ++l) {
       uint64_t gid = G->getGID(l);
-      if (G->getLID(gid) != l || !G->isLocal(gid)) mapsOK = 0;
-      nodes.push_back({(long long)gid, G->isOwned(gid) ? 1 : 0, (long long)G->getHostID(gid)});
+      if (G->getLID(gid) != l || !G->isLocal(gid) || gid >= G->globalSize() || here[gid]) mapsOK = 0;
+      if (gid < G->globalSize()) here[gid] = 1;
+      if (!big) nodes.push_back({(long long)gid, G->isOwned(gid) ? 1 : 0, (long long)G->getHostID(gid)});
       for (auto e = G->edge_begin(l); e != G->edge_end(l); ++e) {
         uint32_t d = G->getEdgeDst(e);
-        edges.push_back({(long long)gid, (long long)G->getGID(d), (long long)G->getEdgeData(e)});
+        if (!big) edges.push_back({(long long)gid, (long long)G->getGID(d), (long long)G->getEdgeData(e)});
+        if (!G->isOwned(gid)) ++foreignSrc;
+        if (!G->isOwned(G->getGID(d))) ++foreignDst;
         hasOut[l] = 1; hasIn[d] = 1;
       }
     }
     auto& mn = G->getMirrorNodes();
-    for (unsigned h = 0; h < mn.size(); ++h) { VL v; v.push_back(h); for (auto x : mn[h]) v.push_back((long long)x); mirrors.push_back(v); }
+    long long mirrorsOK = 1, nmirrorsListed = 0;
+    for (unsigned h = 0; h < mn.size(); ++h) {
+      VL v; v.push_back(h);
+      for (auto x : mn[h]) { v.push_back((long long)x); ++nmirrorsListed; if (!G->isLocal(x) || G->isOwned(x) || G->getHostID(x) != h) mirrorsOK = 0; }
+      if (!big) mirrors.push_back(v);
+    }
     long long notLocalOK = 1;   // global ids without a proxy here must not be reported local
-    for (uint64_t gid = 0; gid < G->globalSize(); ++gid) { bool here = false; for (auto& nd : nodes) if ((uint64_t)nd[0] == gid) here = true; if (G->isLocal(gid) != here) notLocalOK = 0; }
-    out->line(Rec().str("ev", "part").i("h", me).i("hosts", H).str("policy", policy).i("transposed", G->isTransposed() ? 1 : 0).i("reversed", (policy == "oec-t" || policy == "iec-t" || policy == "cvc-t") ? 1 : 0).i("vcut", G->is_vertex_cut() ? 1 : 0)
-                  .i("gn", G->globalSize()).i("gm", G->globalSizeEdges()).i("nmasters", G->numMasters()).i("withedges", G->getNumNodesWithEdges())
-                  .i("mapsok", mapsOK).i("localok", notLocalOK).raw("nodes", vh::jarr2(nodes)).raw("edges", vh::jarr2(edges)).raw("mirrors", vh::jarr2(mirrors)));
+    for (uint64_t gid = 0; gid < G->globalSize(); ++gid) if (G->isLocal(gid) != (bool)here[gid]) notLocalOK = 0;
+    bool reversed = policy == "oec-t" || policy == "iec-t" || policy == "cvc-t";
+    Rec r;
+    r.str("ev", big ? "partsum" : "part").i("h", me).i("hosts", H).str("policy", policy).i("transposed", G->isTransposed() ? 1 : 0).i("reversed", reversed ? 1 : 0)
+        .i("vcut", G->is_vertex_cut() ? 1 : 0).i("gn", G->globalSize()).i("gm", G->globalSizeEdges()).i("nmasters", G->numMasters()).i("withedges", G->getNumNodesWithEdges())
+        .i("mapsok", mapsOK).i("localok", notLocalOK);
+    if (big) r.i("nnodes", G->size()).i("nedges", G->sizeEdges()).i("foreignsrc", foreignSrc).i("foreigndst", foreignDst).i("mirrorsok", mirrorsOK)
+                 .i("nmirrors", (long long)G->size() - (long long)G->numMasters()).i("listed", nmirrorsListed);
+    else r.raw("nodes", vh::jarr2(nodes)).raw("edges", vh::jarr2(edges)).raw("mirrors", vh::jarr2(mirrors));
+    out->line(r);
     out->flush();
   }
   // ---- C18: sync rounds
@@ -154,6 +170,7 @@ int main(int argc, char** argv) {
     // (only with an update bitset and not with the enforced dense encoding: otherwise every mirror's content is sent in every
     // sync, refreshed totals included, and an application has to consume them first)
     bool twoStep = f == F_ADD && pr.below(2) == 0 && useBitset && mode != onlyData;
+    if (twoStep && pr.below(2) == 0) { mode = noData; enforcedDataMode = mode; }   // let get_data_mode() choose
     std::vector<uint32_t> mine(G->size(), 0);   // this host's own contribution of the first step, per proxy
     vh::Rng wr(seed * 104729 + round * 64 + me);
     for (int step = 0; step < (twoStep ? 2 : 1); ++step) {
@@ -171,9 +188,11 @@ int main(int argc, char** argv) {
         // first broadcast did not refresh); a refreshed mirror holds the total, which an application consumes first
         if (step == 1 && !G->isOwned(G->getGID(l))) { uint32_t now = fld(G->getData(l), f).load(); if (!(now == 0 || (mine[l] != 0 && now == mine[l]))) eligible = false; }
         if (!eligible || density == 0) continue;
+        if (step == 1) goto write;     // second step: every proxy that may be written is
         if (density == 1 && wr.below(8) != 0) continue;
         if (density == 2 && wr.below(2) != 0) continue;
         if (density == 4 && wr.below(6) == 0) continue;
+      write:
         uint32_t c = f == F_ADD ? 1 + (uint32_t)wr.below(9) : 900 + (uint32_t)wr.below(700);
         auto& x = fld(G->getData(l), f);
         if (f == F_MIN) galois::atomicMin(x, c); else if (f == F_ADD) galois::atomicAdd(x, c); else galois::atomicMax(x, c);
